@@ -484,7 +484,7 @@ def case_of(req_line):
     return " ".join(t for t in req_line.split(" ")[1:] if not t.startswith("result=") and not t.startswith("steps=")
                     and not t.startswith("final=") and not t.startswith("target=") and not t.startswith("bodyend=")
                     and not t.startswith("mutated=") and not t.startswith("rewritten=") and not t.startswith("nv=") and not t.startswith("nm=")
-                    and not t.startswith("graph=") and not t.startswith("graphfinal="))
+                    and not t.startswith("graph=") and not t.startswith("graphfinal=") and not t.startswith("valid="))
 
 
 REL_CASES = set()          # failing cases observed on the release-semantics build (see harness/Cargo.toml, profile relsem)
@@ -903,6 +903,10 @@ def stream_s2(cx, rate0_only=False):
     for prof, n in profs.items():
         for (req, out) in run_trace(n, cx.seed * 7919 + 13, prof, "0" if cx.P["unsafe"] == "0" else "mix"):
             r = toks(req)
+            if " FAIL " in out:
+                if not hasattr(cx, "s2_requests"):
+                    cx.s2_requests = {}
+                cx.s2_requests[case_of(req)] = req
             cx.cov["disagreements_checked"] += 1
             # C15 at generation level: rate 0.0 => no value mutated, nothing rewritten
             if cx.prop == "C15" and r.get("rate") == "0000000000000000":
@@ -954,6 +958,10 @@ def stream_s2(cx, rate0_only=False):
     cx.cov["traces_validated_against_impl"] += ok
     if bad:
         cx.corr.append(dict(stream="S2", count=len(bad), first=bad[0][1][:1500], case=bad[0][0]))
+        try:
+            stale_list_search(cx, bad)
+        except Exception as e:
+            cx.corr.append(dict(stream="S2", count=1, first="search from the stale candidate list could not run: %s" % str(e)[:300]))
         # a disagreeing run is the first place to look for a concrete failing input
         key = cx.P["key"]
         if key and key != "gen":
@@ -966,6 +974,65 @@ def stream_s2(cx, rate0_only=False):
                 if v.get(key, "").startswith("FAIL"):
                     cx.failing.append(("oracle", cl, v[key]))
                     break
+
+
+def stale_list_search(cx, bad):
+    """the body loop drew from a candidate list that differs from what the guards say (a cache of the list, or of part
+    of it, that was not invalidated): make the real generator pick an opcode that is on the loop's list but not on the
+    guards' — same fuzzer bytes up to that choice, then the byte that selects that opcode — and judge the output.
+    Needs a fuzzer-bytes run (the seeded source cannot be steered); more traces are drawn if none of the disagreeing
+    runs is one."""
+    key = cx.P["key"]
+    if not key or key == "gen":
+        return
+    def candidates(pairs):
+        out = []
+        for cl, o in pairs:
+            m = re.search(r"step_(\d+):_the_candidate_list.*?loop=([0-9a-f]+|e)_guards=([0-9a-f]*)", o)
+            if not m:
+                continue
+            out.append((cl, int(m.group(1)), m.group(2), m.group(3)))
+        return out
+    reqs_by_case = getattr(cx, "s2_requests", {})
+    cands = [c for c in candidates(bad) if " mode=arb:" in c[0]]
+    if len(cands) < 4:
+        extra = run_trace(4000 if cx.tier == "quick" else 20000, cx.seed * 31 + 77, "default", "0" if cx.P["unsafe"] == "0" else "mix")
+        more = [(case_of(req), out) for req, out in extra if " FAIL " in out]
+        for req, out in extra:
+            reqs_by_case[case_of(req)] = req
+        cands += [c for c in candidates(more) if " mode=arb:" in c[0]]
+    lines = []
+    for cl, k, loop, guards in cands[:60]:
+        req = reqs_by_case.get(cl)
+        if not req:
+            continue
+        r = toks(req)
+        vl = r.get("valid", "-").split(",")
+        if k >= len(vl) or "@" not in vl[k]:
+            continue
+        left = vl[k].split("@")[1]
+        if left == "-":
+            continue
+        data = bytes.fromhex(r["mode"][4:]) if r["mode"][4:] not in ("-", "") else b""
+        used = len(data) - int(left)
+        lo = [loop[i:i + 2] for i in range(0, len(loop), 2)] if loop != "e" else []
+        go = set(guards[i:i + 2] for i in range(0, len(guards), 2))
+        for j, opx in enumerate(lo):
+            if opx not in go and len(lo) <= 256:
+                nd = data[:used] + bytes([j])
+                t = [x for x in cl.split(" ") if not x.startswith("mode=") and not x.startswith("valid=")]
+                lines.append(" ".join(t) + " mode=arb:" + nd.hex())
+    cx.cov["targeted_inputs_tried"] = cx.cov.get("targeted_inputs_tried", 0) + len(lines)
+    if not lines:
+        return
+    rc, req, err = sh([HARNESS, "oracle", "--stdin"], inp="\n".join(lines) + "\n", timeout=STREAM_TIMEOUT[0])
+    rl = [l for l in req.split("\n") if l.startswith("oracle ")]
+    vs = [toks(l) for l in drive(req) if l.startswith("oracle ")]
+    for r_, v in zip(rl, vs):
+        cx.cov["evaluations"] += 1
+        if v.get(key, "").startswith("FAIL"):
+            cx.failing.append(("oracle", case_of(r_), v[key]))
+            return
 
 
 def stream_s3(cx):
